@@ -106,7 +106,7 @@ int snoopy_datasource_domain (char * const resultBuf, size_t resultBufSize, __at
 
 
     /* Try to open file in read mode */
-    fp = fopen(HOSTS_PATH, "r");
+    fp = fopen(HOSTS_PATH, "re");
     if (NULL == fp) {
         snprintf(resultBuf, resultBufSize, "Unable to open file for reading: %s", HOSTS_PATH);
         return SNOOPY_OUTPUT_FAILURE;
